@@ -351,6 +351,15 @@ if broken and not [v for v in ck.violations if not v["no_input"]]:
     ck.violation("obligation:" + broken[0][0], "proof obligation no longer checks: %s; the property predicates were evaluated on every observed diagnostic and fix of this run and hold" % broken[0][0],
                  {"broken": broken}, no_input=True)
 
+# the tie must not shrink silently (packages that stop loading, a generator that stops triggering checks)
+if not os.environ.get("C16_ONLY"):
+    floor = {"diagnostics": (n_dcases if 'n_dcases' in dir() else sum(len(v) for v in dcases.values()), 1500),
+             "fixes": (sum(len(v) for v in fcases.values()), 500), "behaviour comparisons": (len(behave), 60),
+             "checks offering fixes": (len({f["Check"] for f in fixes}), 40)}
+    for what, (got, want) in floor.items():
+        if got < want:
+            ck.violation("corpus-shrank:" + slug(what), "only %d %s were observed (at least %d expected): the tie no longer covers the corpus (%s)" % (got, what, want, notes[:3]),
+                         {"stats": stats, "notes": notes}, no_input=True)
 checks_with_fix = sorted({f["Check"] for f in fixes})
 nontriv = len({(f["Check"], f["Variant"], f["File"], f["Prefix"], f["MiddleHex"], f["Suffix"]) for f in fixes if f["Applied"] and (f["MiddleHex"] or f["Prefix"] + f["Suffix"] < len(files[f["File"]]["Hex"]) // 2)})
 n_dcases = sum(len(v) for v in dcases.values())
